@@ -68,7 +68,12 @@ def gen_args(rng, large=False):
 
 
 def is_large(spec):
-    return spec["kind"] == "file" and spec["name"] == "r3c_example.cif"
+    """Structures whose unit cell holds many atoms: cheaper arguments, no
+    expensive queries, a smaller audit."""
+    if spec["kind"] == "file":
+        return spec["name"] == "r3c_example.cif"
+    n_ops = len(sources.make_space_group(*spec["sg"]).symmetry_operations)
+    return n_ops * len(spec["elements"]) > 150
 
 
 def gen_config(rng, spec):
